@@ -1320,6 +1320,7 @@ def run(ctx):
 
     agree = 0
     evaluations = 0
+    pair_evaluations = 0
     distinct = set()
     pairings = {}
     kinds_hit = {}
@@ -1425,6 +1426,7 @@ def run(ctx):
                     mo = model.get("%s.%d.%d" % (c["id"], i, j))
                     mf = model.get("%s.o%d.%d" % (c["id"], i, j))
                     key = (c["texts"][i], c["texts"][j])
+                    pair_evaluations += 1
                     if kind_of(c["terms"][i]) == kind_of(c["terms"][j]) and c["texts"][i] != c["texts"][j] or \
                             (i != j and c["texts"][i] == c["texts"][j] and c["terms"][i] != c["terms"][j]):
                         distinct.add(key)
@@ -1539,7 +1541,10 @@ def run(ctx):
                 samples.append(c["prolog"])
 
     return {
-        "evaluations": evaluations,
+        # evaluations = ordered pairs compared on the implementation (a case holds 2-3 terms, i.e. up to
+        # 9 ordered pairs) plus the cases of the other families; distinct_nontrivial counts pairs
+        "evaluations": max(evaluations, pair_evaluations + evaluations),
+        "cases": evaluations,
         "distinct_nontrivial": len(distinct),
         "rule": "groups of 2 (pair) / 3 (triple) / up to 14 (sort, keysort) terms: a random term (depth<=3) over variables, boundary integers, rationals, doubles, ASCII/2/3/4-byte-UTF-8 atoms, compounds, lists and strings in all heap representations (literal, partial string, run-time list cells, '.'/2 structure, multi-segment and offset strings), the other members mostly mutations of it (neighbouring leaf, changed arity/name/argument, representation-only change); a numeric-boundary family (an integer around 2^53..2^56 / 2^63 / 2^64 / bignum against rationals within 1/d of it and its neighbours), a family scanning string lengths for visited-pair key collisions; every ordered pair is compared with compare/3 and the six operators in call and execute form, through the inference-counted and the Default* instruction variants; non-trivial = the two terms are of the same kind but not identical, or identical in different representations; distinct by canonical text pair",
         "samples": samples,
